@@ -7,6 +7,7 @@ import (
 	"github.com/cosmos/cosmos-sdk/codec"
 	banktypes "github.com/cosmos/cosmos-sdk/x/bank/types"
 	"math/big"
+	"strings"
 	"time"
 
 	sdkmath "cosmossdk.io/math"
@@ -43,6 +44,19 @@ type Action struct {
 	Nonce   uint64   `json:"nonce,omitempty"`
 	N       int      `json:"n,omitempty"`
 	Hostile bool     `json:"hostile,omitempty"` // drawn in a hostile/extreme variant (statistics only)
+	// oracle price submission ("price")
+	Feeder uint64   `json:"feeder,omitempty"`
+	Based  uint64   `json:"based,omitempty"`
+	PNonce int32    `json:"pnonce,omitempty"`
+	Dets   []string `json:"dets,omitempty"`
+	Prices []string `json:"prices,omitempty"`
+	Ts     string   `json:"ts,omitempty"`
+	Dec    int32    `json:"dec,omitempty"`
+	Src    uint64   `json:"src,omitempty"`
+	Sig    int      `json:"sig,omitempty"`
+	Mode   int      `json:"mode,omitempty"`  // 0 DeliverTx, 1 CheckTx, 2 ReCheckTx
+	Pad    int      `json:"pad,omitempty"`   // extra bytes in the source description (size limit)
+	Twice  bool     `json:"twice,omitempty"` // the same message two times in one transaction
 }
 
 func (a Action) String() string {
@@ -55,6 +69,10 @@ type Outcome struct {
 	OK       bool // the operation took effect according to the chain's own answer
 	Included bool // the carrying transaction was included (code 0)
 	Note     string
+	// Admitted: the transaction passed the admission (ante) checks; only meaningful for "price"
+	Admitted           bool
+	Priority           int64
+	GasWanted, GasUsed int64
 }
 
 // Violation is a failed invariant with a stable id.
@@ -90,6 +108,7 @@ type Machine struct {
 	nstSeq  int
 	// native bank balance of every actor before the current step
 	nativeBefore []*big.Int
+	lastTx       []byte // bytes of the last price transaction built
 }
 
 const keyPoolExtra = 6
@@ -338,6 +357,33 @@ func (m *Machine) Apply(a *Action) (Outcome, error) {
 			note = err.Error()
 		}
 		return Outcome{OK: err == nil, Included: true, Note: note}, nil
+	case "price":
+		key := m.Keys[a.Key]
+		var entries []sim.PriceEntry
+		for i, d := range a.Dets {
+			entries = append(entries, sim.PriceEntry{Price: a.Prices[i], Decimal: a.Dec, Timestamp: a.Ts, DetID: d})
+		}
+		msg := sim.BuildPriceMsg(key, a.Feeder, a.Src, entries, a.Based, a.PNonce)
+		if a.Pad > 0 && len(msg.Prices) > 0 {
+			msg.Prices[0].Desc = strings.Repeat("x", a.Pad)
+		}
+		msgs := []sdk.Msg{msg}
+		if a.Twice {
+			msgs = append(msgs, msg)
+		}
+		other := m.Keys[(a.Key+1)%len(m.Keys)]
+		bz, err := c.BuildPriceTx(key, sim.PriceSig(a.Sig), other, msgs...)
+		if err != nil {
+			return Outcome{}, err
+		}
+		m.lastTx = bz
+		if a.Mode > 0 {
+			res := c.CheckTx(bz, a.Mode == 2)
+			return Outcome{OK: res.Code == 0, Included: false, Admitted: res.Code == 0, Note: res.Log, Priority: res.Priority, GasWanted: res.GasWanted, GasUsed: res.GasUsed}, nil
+		}
+		res := c.DeliverTx(bz)
+		adm := res.Code == 0 || strings.HasPrefix(res.Log, "failed to execute message") || strings.HasPrefix(res.Log, "recovered")
+		return Outcome{OK: res.Code == 0, Included: res.Code == 0, Admitted: adm, Note: res.Log, GasWanted: res.GasWanted, GasUsed: res.GasUsed}, nil
 	case "payFee":
 		// an ordinary transaction whose only purpose is its fee (fee income for the collector)
 		to := m.ActorKey(a.Actor)
